@@ -1,4 +1,7 @@
-"""Per-property configuration of the check driver."""
+"""Per-property configuration of the check driver: one module lib/propcfg/Cxx.py per property (CFG dict)."""
+import importlib.util
+import glob
+import os
 
 TRUSTED_BASE = [
     "Coq 8.16.1 kernel (coqc), vm_compute for witnesses / finite sweeps / case evaluation; native_compute not used",
@@ -8,18 +11,17 @@ TRUSTED_BASE = [
     "rustc/std semantics (slice::binary_search on strictly sorted slices, Vec, integer casts), third-party crates and all unsafe blocks are modelled, not verified",
 ]
 
+# commits in /repo that add the cfg-guarded hooks (cargo feature `verif` of crate sudachi)
 HOOK_COMMITS = ["6c85395"]
 
-# properties whose check is not built yet (kept current; see DESIGN.md section 8)
+# reasons for properties that are not claimed (kept current)
 NOT_BUILT = {}
 
-PROPS = {
-    "C17": {
-        "level_text": "Unbounded theorem (all definition lists in any order/overlap/adjacency/duplication, all code points): lookup(compile rs) c = union of covering lines or DEFAULT; compile cannot reach its panic. The Gallina model of compile/get_category_types is run against CharacterCategory::from_reader on generated char.def files each check.",
-        "level_note": "Proved about the model; model tied to the code by Generated/CategoryFacts.v and the differential run. Text parsing of char.def and std binary_search are trusted/tested, not proved.",
-        "facts": ["CategoryFacts"],
-        "trusted": ["char.def text parsing (read_character_definition) is exercised by the correspondence run only; the model starts from the parsed ranges"],
-        "assumptions": ["std slice::binary_search returns the unique matching index / insertion point on a strictly sorted slice",
-                        "bitflags text parser maps class names to the bits listed in Generated/CategoryFacts.v"],
-    },
-}
+PROPS = {}
+_here = os.path.join(os.path.dirname(os.path.abspath(__file__)), "propcfg")
+for _f in sorted(glob.glob(os.path.join(_here, "C*.py"))):
+    _name = os.path.basename(_f)[:-3]
+    _spec = importlib.util.spec_from_file_location("propcfg_" + _name, _f)
+    _m = importlib.util.module_from_spec(_spec)
+    _spec.loader.exec_module(_m)
+    PROPS[_name] = _m.CFG
